@@ -189,6 +189,38 @@ def run(ctx):
         if not (np.all(zn[mk_n == 0] == 0) and np.allclose(zn[mk_n != 0], zr[mk_n != 0], rtol=1e-12, atol=1e-12)):
             ctx.violation({'kind': 'not-zero-outside-the-mask', 'coordinates': 'undefined-outside-the-mask', 'order': 'low'},
                           {'j': j_n, 'outside': zn[mk_n == 0][:6]}, case=None)
+    # ---- 2d. the coordinates handed out belong to the caller: turning them (theta += angle, to build a rotated basis) does not change
+    # what a later request for the default frame of an equal mask returns, nor the default-coordinate modes
+    mk_c = np.zeros((7, 8))
+    mk_c[1:6, 2:7] = 1
+    mk_c[1, 2] = 0
+    z_before = [np.array(lentil.zernike(mk_c, j_), dtype=float) for j_ in (2, 3, 5)]
+    rho_c, th_c = lentil.zernike_coordinates(mk_c)
+    keep_c = (np.array(rho_c, copy=True), np.array(th_c, copy=True))
+    ctx.case(('coordinates-belong-to-the-caller',))
+    try:
+        th_c += 0.5
+        rho_c *= 2.0
+        writable = True
+    except ValueError:
+        writable = False                                   # (read-only results are a way of keeping them safe as well)
+    rho_d, th_d = lentil.zernike_coordinates(mk_c.copy())
+    z_after = [np.array(lentil.zernike(mk_c.copy(), j_), dtype=float) for j_ in (2, 3, 5)]
+    if not (np.allclose(rho_d, keep_c[0], rtol=1e-13, atol=1e-13) and np.allclose(th_d, keep_c[1], rtol=1e-13, atol=1e-13)
+            and all(np.allclose(a_, b_, rtol=1e-12, atol=1e-12) for a_, b_ in zip(z_before, z_after))):
+        ctx.violation({'kind': 'default-coordinates-depend-on-what-the-caller-did-with-earlier-ones'}, {'writable': writable}, case=None)
+    # ---- 2e. coordinates supplied in single or half precision are the same coordinates (values exactly representable): the mode is
+    # evaluated in double precision
+    rq = np.array([[0.25, 0.5, 0.75, 1.0], [0.125, 0.375, 0.625, 0.875]])
+    tq = np.array([[0.0, 0.5, 1.0, 1.5], [2.0, 2.5, 3.0, -1.0]])
+    for j_ in (2, 3, 4, 7, 8, 11, 22, 37):
+        ref_ = np.asarray(lentil.zernike(np.ones(rq.shape), j_, rho=rq, theta=tq), dtype=float)
+        for cdt in (np.float32, np.float16):
+            ctx.case(('coordinate-dtype', j_, np.dtype(cdt).name))
+            got_ = np.asarray(lentil.zernike(np.ones(rq.shape), j_, rho=rq.astype(cdt), theta=tq.astype(cdt)), dtype=float)
+            if not np.allclose(got_, ref_, rtol=1e-12, atol=1e-12):
+                ctx.violation({'kind': 'mode-depends-on-the-float-type-of-the-coordinates', 'dtype': np.dtype(cdt).name},
+                              {'j': j_, 'max_abs_difference': float(np.abs(got_ - ref_).max())}, case=None)
     # ---- 3. orthonormality over the unit disk by exact quadrature (numeric leaf) -----------------------------------------------
     gl_x, gl_w = np.polynomial.legendre.leggauss(20)
     r_nodes = 0.5 * (gl_x + 1)
